@@ -194,6 +194,59 @@ def hierarchy_models(r, n):
     return out
 
 
+# ------------------------------------------------------------------ inherited fields over several levels
+def inherit_models(r, n):
+    """Chains Base <- Mid <- Leaf (<- Tip) where every level has or lacks a Meta (with or without a
+    namespace / name / nillable) and declares element, wrapped-list and attribute fields: which
+    namespace an inherited field gets (the declaring class's Meta.namespace if that class has one of
+    its own, else the serialized class's) is part of the metadata; instances of every level as the
+    document root and inside a base-typed field of a holder class (xsi:type)."""
+    out = []
+    NSS = ["urn:base", "urn:mid", "urn:leaf", "urn:tip", ""]
+    for _ in range(n):
+        depth = r.choice([3, 3, 4])
+        names = ["Base", "Mid", "Leaf", "Tip"][:depth]
+        classes = []
+        for i, nm in enumerate(names):
+            k = r.random()
+            meta = {}
+            if k < 0.45:
+                meta["namespace"] = NSS[i] if r.random() < 0.8 else r.choice(NSS)
+            elif k < 0.6:
+                meta[r.choice(["name", "nillable"])] = True if k < 0.52 else nm.lower()   # a Meta without namespace
+                if "name" in meta and meta["name"] is True:
+                    meta = {"nillable": True}
+            fields = [F(f"e{i}", "Element", ("prim", r.choice(["str", "int"])), optional=True,
+                        **({"namespace": r.choice(["urn:x", ""])} if r.random() < 0.15 else {})),
+                      F(f"a{i}", "Attribute", ("prim", "int"), optional=True)]
+            if r.random() < 0.6:
+                fields.append(F(f"w{i}", "Element", ("prim", "str"), list=True, wrapper=f"ws{i}"))
+            classes.append({"name": nm, "meta": meta, "base": names[i - 1] if i else None, "fields": fields})
+        holder = {"name": "Holder", "meta": r.choice([{}, {"namespace": "urn:h"}]), "base": None,
+                  "fields": [F("item", "Element", ("class", "Base"), optional=True), F("many", "Element", ("class", "Mid"), list=True)]}
+        classes.append(holder)
+        desc = {"module_ns": r.choice([None, None, "urn:m"]), "enums": [], "root": names[-1], "slices": ["inherit"], "classes": classes}
+
+        def inst(cn):
+            c = genmodels.find_class(desc, cn)
+            vals = {}
+            for f in genmodels.all_fields(desc, c):
+                if f.get("list"):
+                    vals[f["name"]] = [{"__p__": "str", "v": r.choice(["p", "q"])} for _ in range(r.choice([0, 1, 2]))]
+                elif r.random() < 0.25:
+                    vals[f["name"]] = None
+                else:
+                    vals[f["name"]] = {"__p__": f["type"][1], "v": "v" if f["type"][1] == "str" else r.randint(0, 9)}
+            return {"__cls__": cn, "fields": vals}
+        cases = []
+        for nm in names:
+            cases.append({"recipe": inst(nm), "ignore": False, "derived": None, "hostile": False})
+        cases.append({"recipe": {"__cls__": "Holder", "fields": {"item": inst(r.choice(names)), "many": [inst(r.choice(names[1:])) for _ in range(r.choice([0, 1, 2]))]}},
+                      "ignore": False, "derived": None, "hostile": False})
+        out.append({"desc": desc, "src": genmodels.render_source(desc), "classes": [c["name"] for c in classes], "enums": [], "cases": cases})
+    return out
+
+
 # ------------------------------------------------------------------ sequence groups
 def sequence_models(r, n):
     """Classes with a sequence group of 2-3 adjacent list Element fields (optionally a scalar member, a
@@ -422,7 +475,7 @@ def run(ck: Check):
         models.append({"desc": desc, "src": genmodels.render_source(desc), "classes": [c["name"] for c in desc["classes"]],
                        "enums": [], "cases": [{"recipe": rec, "ignore": False, "derived": None, "hostile": False}],
                        "witness": cls})
-    models += hierarchy_models(ck.rng, ck.n(40, 600)) + sequence_models(ck.rng, ck.n(40, 600))
+    models += hierarchy_models(ck.rng, ck.n(40, 600)) + sequence_models(ck.rng, ck.n(40, 600)) + inherit_models(ck.rng, ck.n(40, 600))
     models += gen_models(ck, n_models, per_model)
     res = run_impl("impl_eventgen.py", {"models": [{k: m[k] for k in ("src", "classes", "enums", "cases")} for m in models]},
                    timeout=1500)
@@ -454,6 +507,13 @@ def run(ck: Check):
     for mi, ci in v["fc_oracle"][:3]:
         ck.failure("spec-events-differ", "the implementation's events differ from the events the metadata prescribe (inside the guard)",
                    describe(models, res, mi, ci, f"c03b_sdbg_{mi}_{ci}", "spec"))
+    # 3b. inherited fields (outside the F1 guard: classes with a base): the specification's reading of
+    #     "a field's namespace defaults to the namespace of the class that declares it" on document roots
+    inh = [(mi, ci) for (mi, ci) in v["fc_oracle_raw"] if models[mi]["desc"]["slices"] == ["inherit"]
+           and ci < len(models[mi]["cases"]) - 1]
+    for mi, ci in inh[:3]:
+        ck.failure("spec-events-differ-inherited", "inherited fields: the implementation's events differ from the events the metadata prescribe",
+                   describe(models, res, mi, ci, f"c03b_idbg_{mi}_{ci}", "spec"))
     for mi, ci in v["fc_theorem"][:3]:
         ck.failure("theorem-instance", "EventGen model on the Builder universe differs from spec_events inside the guard",
                    describe(models, res, mi, ci, f"c03b_tdbg_{mi}_{ci}", "spec"))
